@@ -17,6 +17,7 @@ DECLS = [
     dict(name="sarr", c="unsigned short sarr[4]", kind="a", w=16, sg=False, n=4),
     dict(name="tab", c="const unsigned char tab[4] = {3, 60, 129, 250}", kind="a", w=8, sg=False, n=4, rom=[3, 60, 129, 250]),
     dict(name="p", c="char *p", kind="p", w=8, sg=False, n=1),
+    dict(name="sca", c="signed char sca[4]", kind="a", w=8, sg=True, n=4),
 ]
 DECL = {d["name"]: d for d in DECLS}
 
@@ -36,6 +37,8 @@ FUNCS = {
     "g": dict(c="char g(char x, char y) { return x - y; }", params=[("g_x", 8), ("g_y", 8)],
               body=[{"k": "return", "e": {"k": "bin", "op": "-", "l": V("g_x"), "r": V("g_y")}}], calls=[]),
     "k": dict(c="char k() { return 7; }", params=[], body=[{"k": "return", "e": N(7)}], calls=[]),
+    # leaves the carry set when it returns (no borrow in the subtraction) - for what the caller believes about the carry
+    "hs": dict(c="void hs() { b = b - 1; }", params=[], body=[{"k": "expr", "e": {"k": "asg", "op": "=", "lhs": V("b"), "e": {"k": "bin", "op": "-", "l": V("b"), "r": N(1)}}}], calls=[]),
     "h": dict(c="void h() { a++; }", params=[],
               body=[{"k": "expr", "e": {"k": "inc", "pre": False, "d": 1, "lhs": V("a")}}], calls=[]),
     "w": dict(c="void w(char x) { c = x; }", params=[("w_x", 8)],
